@@ -46,6 +46,28 @@ Proof.
   intros (_ & _ & _ & _ & H). apply IH in H. lia.
 Qed.
 
+(* [Spans] spelled out per declaration: declaration i occupies [off, off + i_e), has the shape
+   [decl_span], the next declaration starts exactly where it ends (the last one ends at b), and the
+   first one starts at a *)
+Lemma Spans_nth l : forall a b i g off,
+  Spans a l b -> nth_error l i = Some (g, off) ->
+  a <= off /\ off + i_e (gdecl_info g) <= b /\ 0 < i_e (gdecl_info g) /\ i_s (gdecl_info g) = 0 /\
+  decl_span toks g off (off + i_e (gdecl_info g)) /\
+  match nth_error l (S i) with
+  | Some (_, off') => off' = off + i_e (gdecl_info g)
+  | None => off + i_e (gdecl_info g) = b
+  end /\
+  (i = 0 -> off = a).
+Proof.
+  induction l as [|[g0 off0] l IH]; intros a b i g off Hsp Hn; [destruct i; discriminate|].
+  cbn [Spans] in Hsp. destruct Hsp as (-> & Hs0 & Hpos & Hd & Hr). pose proof (Spans_le _ _ _ Hr) as Hle.
+  destruct i as [|i]; cbn [nth_error] in *.
+  - injection Hn as -> ->. repeat split; try lia; try assumption.
+    destruct l as [|[g1 off1] l]; cbn [nth_error Spans] in *; [lia|]. now destruct Hr as (-> & _).
+  - destruct (IH _ _ i g off Hr Hn) as (A & B & C & D & E & F & _).
+    repeat split; try assumption; try lia.
+Qed.
+
 (* T5, as a statement about p_program *)
 Theorem program_sync fuel s s' prog :
   EofLast toks -> pos s = 0 -> refp s = 0 ->
